@@ -18,28 +18,36 @@ def parseExtents (s : String) : List Extent :=
     | [a, b, c] => some ⟨a, b, c⟩
     | _ => none
 
+def iosStr (ws : List (Int × Bytes)) : String := joinOr (ws.map fun p => s!"{p.1}:{p.2.length}")
+
+/-- pattern device of the engine's read cases: the byte at device offset p is p*7+3 -/
+def patDev : Dev := fun p => UInt8.ofNat (p * 7 + 3)
+
+/-- FNV-1a (32 bit) of the bytes read, so that the data itself is part of the comparison -/
+def fnv (b : Bytes) : Nat := b.foldl (fun h x => ((h ^^^ x.toNat) * 16777619) % 4294967296) 2166136261
+
 def rw (args : List String) : String :=
   let bs := argNatD args "bs" 1024
   let size := argNatD args "size"
   let off := argNatD args "off"
   let n := argNatD args "n"
   let lt := argNatD args "lt" == 1
+  let cum := argNatD args "cum" == 1
   let es := parseExtents ((arg args "ext").getD "-")
   match arg args "op" with
   | some "read" =>
-    match readE lt (fun _ => 0) bs es size off n with
-    | .ok r => s!"io={joinOr (r.ios.map fun p => s!"{p.1}:{p.2}")}\tn={r.data.length}\teof={if r.eof then 1 else 0}\toff={r.off}"
+    match readE lt patDev bs es size off n with
+    | .ok r => s!"io={joinOr (r.ios.map fun p => s!"{p.1}:{p.2}")}\tn={r.data.length}\teof={if r.eof then 1 else 0}\toff={r.off}\tfnv={fnv r.data}"
     | .panic => "panic"
     | .weird => "weird"
     | .needAlloc => "needalloc"
     | .err => "err"
   | some "write" =>
-    match writeE lt bs es size off (List.replicate n 0) with
-    | .ok r => s!"io={joinOr (r.ws.map fun p => s!"{p.1}:{p.2.length}")}\tn={r.written}\tsize={r.size}\toff={r.off}"
+    match writeE lt cum bs es size off (List.replicate n 0) with
+    | .ok r => s!"io={iosStr r.ws}\tn={r.written}\tsize={r.size}\toff={r.off}"
     | .panic => "panic"
-    | .weird => "weird"
     | .needAlloc => "needalloc"
-    | .err => "err"
+    | .err r => s!"err\tio={iosStr r.ws}\tn={r.written}\tsize={r.size}\toff={r.off}"
   | _ => "unknown-op"
 
 def bitmapOp (args : List String) : String :=
